@@ -513,8 +513,10 @@ package gedcom
 //@   trusted
 //@   ensures result == (tag(node) == 0 || data(node) == 0)
 //@   assigns nothing
+//@ ghost func rawOf(t int, d int) int
 //@ iface Node.RawSimpleNode()
 //@   ensures implies(tag(recv) != 0 && data(recv) != 0, result != nil)
+//@   ensures same-node-same-raw: result == rawOf(tag(recv), data(recv))
 //@   assigns nothing
 //@ iface Node.Tag()
 //@   assigns nothing
@@ -549,9 +551,18 @@ package gedcom
 // engine does not see that the embedded SimpleNode of a merged interface value
 // is fresh, so the frame lists the field (a weaker, still true, frame).
 //@   assigns alloc, H.gedcom.SimpleNode.pointer
+// C02: the value of a node is replaced by strings.TrimSpace of itself - always,
+// for every non-nil node (no shortcut decides on its own what white space is).
 //@ func Decoder.trimNodeValue
-//@   props C03
-//@   safety
+//@   props C03 C02
+//@   safety C03
+//@   ghost nTrim int = 0
+//@   ghost trimmed string = ""
+//@   ghost raw int = 0
+//@   oncall Node.RawSimpleNode#1 do raw = result
+//@   oncall strings.TrimSpace do nTrim = nTrim + 1; trimmed = result
+//@   oncall strings.TrimSpace check whole-value: raw != 0 && arg0 == heap("H.gedcom.SimpleNode.value", raw)
+//@   ensures always-trimmed: implies(tag(previousNode) != 0 && data(previousNode) != 0, nTrim == 1 && raw != 0 && heap("H.gedcom.SimpleNode.value", raw) == trimmed)
 //@   assigns H.gedcom.SimpleNode.value
 // needsFamily / needsDocument panic when their argument is nil. They have no
 // contract: they are inlined, so for C03 their panic is an obligation
